@@ -244,6 +244,21 @@ class ListFallbackServer(aioftp.Server):
         self.commands_mapping["mlst"] = not_implemented
 
 
+class Runaway(Exception):
+    """the client issued more commands than any terminating walk over these trees needs"""
+
+
+class CountingClient(aioftp.Client):
+    LIMIT = 4000
+    issued = 0
+
+    async def command(self, *a, **kw):
+        self.issued += 1
+        if self.issued > self.LIMIT:
+            raise Runaway()
+        return await super().command(*a, **kw)
+
+
 class DotPath(pathlib.PurePosixPath):
     """the directory itself, listed under the name '.' (pathlib would normalise `path / "."` away)"""
 
@@ -433,7 +448,9 @@ def run_case(case, src, remote, tmp, wall_timeout=60):
     lcwdp = [p for p in case["lcwd"].split("/") if p]
     local0 = {"lkeep": {"l": b"L"}}
     local0 = graft_oracle(local0, lcwdp + ["foo"], src)
-    obs = {"local0": local0}
+    # defaults in case the session does not come to an end (a client that walks forever)
+    obs = {"local0": local0, "upload_exc": "Timeout", "t1": remote, "paths": ("", "keep", "keep"), "list": "Timeout",
+           "lwi": False, "download_exc": "Timeout", "local1": local0, "remove_exc": "Timeout", "t2": remote}
     old_cwd = os.getcwd()
     sroot = croot = None
     if case["sdisk"]:
@@ -459,10 +476,10 @@ def run_case(case, src, remote, tmp, wall_timeout=60):
             server.path_io_factory.state = mem_state(remote)
         await server.start("127.0.0.1", 2121)
         if case["cdisk"]:
-            client = aioftp.Client(path_io_factory=aioftp.PathIO)
+            client = CountingClient(path_io_factory=aioftp.PathIO)
             os.chdir(croot.joinpath(*lcwdp))
         else:
-            client = aioftp.Client(path_io_factory=functools.partial(aioftp.MemoryPathIO, cwd=case["lcwd"]))
+            client = CountingClient(path_io_factory=functools.partial(aioftp.MemoryPathIO, cwd=case["lcwd"]))
             client.path_io.fs = mem_state(local0)
         await client.connect("127.0.0.1", 2121)
         await client.login()
@@ -513,6 +530,8 @@ def run_case(case, src, remote, tmp, wall_timeout=60):
 
     try:
         simnet.run(main, wall_timeout=wall_timeout)
+    except (Runaway, RecursionError):
+        obs["runaway"] = True
     finally:
         os.chdir(old_cwd)
         for d in (sroot, croot):
@@ -788,4 +807,4 @@ def replay(ctx, data):
         check_cases(probe, [case], tmp)
     finally:
         shutil.rmtree(tmp, ignore_errors=True)
-    return not probe.bad
+    return not [b for b in probe.bad if b[1] == r.get("key")]
